@@ -56,6 +56,8 @@ class MuxHarness(Harness):
     def elaborate(self, platform):
         m = Module()
         m.submodules.mux = self.mux
+        tick = Signal()                     # the multiplexer is purely combinational; keep the usb domain alive for replay
+        m.d.usb += tick.eq(~tick)
         valids = Cat(*[i.valid for i in self.ins])
         onehot_or_zero = (valids & (valids - 1)) == 0
         exp_data = Signal(8)
@@ -114,7 +116,7 @@ class TxHarness(Harness):
             nohsk = nohsk & (h.kind[i] != KIND_HSK)
             noaddr = noaddr & ~((h.kind[i] == KIND_SETUP) & (d[5:7] == 0) & (d[8:16] == 5))
         m.d.comb += [self.a["legal"].eq(h.legal), self.a["no_hsk"].eq(nohsk), self.a["no_set_address"].eq(noaddr),
-                     self.a["bounded_stall"].eq(~(u.tx_valid & (h.t >= h.ack_t - 2)))]
+                     self.a["bounded_stall"].eq(~(u.tx_valid & (h.t >= h.ack_t - 1)))]
 
         # ---- packet decoder on accepted bytes
         from luna.gateware.usb.usb2.packet import USBDataPacketCRC
